@@ -70,6 +70,14 @@ def gen_case(rng, idx, want_accept):
         for t in it:
             if t[0] in ('val', 'title') and t[2] is not None and '\0' not in t[2] and rng.random() < 0.15:
                 t[1] = spell_multiline(rng, t[2])
+    # titles spelled with a backslash in front of a CR LF line end (DOS files): the backslash escapes the CR, the line end still counts
+    for it in items:
+        for t in it:
+            if t[0] == 'title' and t[2] is not None and t[2] != '' and '\0' not in t[2] and rng.random() < 0.05:
+                k = rng.randint(0, len(t[2]))
+                esc = lambda x: x.replace('\\', '\\\\').replace('"', '\\"').replace('$', '\\$')
+                t[1] = '"' + esc(t[2][:k]) + '\\\r\n' + esc(t[2][k:]) + '"'
+                t[2] = t[2][:k] + '\r\n' + t[2][k:]
     # distribute over files: main, f1 (depth 1), f2 (depth 2)
     n = len(items)
     files = {'main': None}
@@ -111,7 +119,7 @@ def gen_case(rng, idx, want_accept):
         elif kind == 'bad-value':
             sp, dec = rng.choice([('zz!', 'zz!'), ('"not a number"', 'not a number'), ("'1.2.3'", '1.2.3'), ('12abc', '12abc'), ('0x-5', '0x-5'), ('0b-1', '0b-1'),
                                   ('0x0x1f', '0x0x1f'), ('"0x 5"', '0x 5'), ('"0x+5"', '0x+5'), ('0x', '0x'), ('08', '08'), ('""', ''), ('1e999', '1e999'),
-                                  ('99999999999999999999', '99999999999999999999'), ('maybe', 'maybe'), ('0b2', '0b2'), ('1..5', '1..5'), ('-', '-')])
+                                  ('99999999999999999999', '99999999999999999999'), ('maybe', 'maybe'), ('1e-310', '1e-310'), ('4e-324', '4e-324'), ('-1e-400', '-1e-400'), ('0b2', '0b2'), ('1..5', '1..5'), ('-', '-')])
             it[ti] = ['val', sp, dec]
         elif kind == 'wrong-token':
             p = rng.choice(['=', '+=', '{', '}', '(', ')', ','])
